@@ -487,6 +487,9 @@ class Sigma:
 
     def register(self, larr):
         t = zz(larr.at(G))
+        ts = z3.simplify(t)
+        if z3.is_rational_value(ts) and ts.numerator_as_long() == 0:
+            return 0  # law CONST: a sum of zeros is zero
         for name, t0 in self.sums.items():
             if z3.eq(z3.simplify(t0), z3.simplify(t)):
                 return Sym(z3.Real(name))
